@@ -178,6 +178,11 @@ impl Envelope {
         for envelope in envelopes {
             for assertion in envelope.assertions_with_predicate(known_values::SSKR_SHARE) {
                 let share = assertion.as_object().unwrap().extract_subject::<SSKRShare>()?;
+                // A share is five bytes of metadata followed by the share value; anything
+                // shorter is not a share (and its accessors would index out of bounds).
+                if share.data().len() <= 5 {
+                    bail!(EnvelopeError::InvalidShares);
+                }
                 let identifier = share.identifier();
                 result.entry(identifier).and_modify(|shares| shares.push(share.clone())).or_insert(vec![share]);
             }
